@@ -42,6 +42,7 @@ ObsOf(line, pre, post) ==
   [g \in DOMAIN pre.groups |->
      [att |-> IF DryOf(pre.groups[g], pre.dryAll) THEN DryAtt(pre, post, g) ELSE GetSeq(line, g),
       nd  |-> post.groups[g].ctl.delta,
+      fleetLo |-> LET f == SelectSeq(line.calls, LAMBDA c : c.op = "fleet_ids" /\ c.g = g) IN IF f = <<>> THEN 0 ELSE f[1].a,
       ndAny |-> line.ret = "notingroup" /\ g = LastScanned(line)]]
 
 \* components of the post-state that the scan determines
@@ -54,6 +55,7 @@ Mismatch(line, pre, post, exp) ==
                IF exp.W.groups[g].pc # post.groups[g].pc THEN "post.pc" ELSE "ok",
                IF exp.W.groups[g].ctl # post.groups[g].ctl THEN "post.ctl" ELSE "ok",
                IF exp.W.groups[g].accepted # post.groups[g].accepted THEN "post.accepted" ELSE "ok",
+               IF exp.W.groups[g].tries # post.groups[g].tries THEN "post.tries" ELSE "ok",
                IF ~(exp.res[g].lookReq \subseteq ToSet(line.lookups[g]) /\ ToSet(line.lookups[g]) \subseteq exp.res[g].lookMay)
                  THEN "lookups" ELSE "ok"} : g \in gs}
   IN (IF ~exp.valid THEN {"choice-not-admissible"} ELSE {})
@@ -61,7 +63,7 @@ Mismatch(line, pre, post, exp) ==
   \cup (IF exp.ret # line.ret THEN {"ret"} ELSE {})
   \cup (IF line.panic THEN {"panic"} ELSE {})
   \cup (IF line.hang THEN {"hang"} ELSE {})
-  \cup (IF line.exit THEN {"exit"} ELSE {})
+  \cup (IF line.exit # exp.exit THEN {"exit"} ELSE {})
   \cup (IF exp.W.alive # post.alive THEN {"alive"} ELSE {})
   \cup (perGroup \ {"ok"})
 
